@@ -149,6 +149,29 @@ def links(ctx):
                    sample={'unit': unit, 'fragments': calls, 'nodes': nodes})
 
 
+class _Buf:
+    """records the verdicts of one attempt"""
+    def __init__(self):
+        self.calls = []
+
+    def ok(self, *a, **k):
+        self.calls.append(('ok', a, k))
+
+    def bad(self, *a, **k):
+        self.calls.append(('bad', a, k))
+
+    def unk(self, *a, **k):
+        self.calls.append(('unk', a, k))
+
+    def rank(self):
+        # a template that does not fit (no verdict) says less than one that fits and differs
+        return 0 if any(c[0] == 'bad' for c in self.calls) else 1
+
+    def replay(self, rep):
+        for kind, a, k in self.calls:
+            getattr(rep, kind)(*a, **k)
+
+
 def steps(ctx):
     """I3: every traversal against the reference step tables (props/C03_steps.py)"""
     from props import C03_steps
@@ -170,7 +193,24 @@ def steps(ctx):
                 rep.unk('I3', name, 'anchor vanished')
                 continue
             try:
-                if C03_steps.check_function(rep, fn, lookup, mask, fam, a, name):
+                if fam == 'tear':
+                    # the property fixes children before parents, not left before right: either mirror of the descent will do
+                    res = []
+                    for a_ in ('l', 'r'):
+                        buf = _Buf()
+                        try:
+                            okf = C03_steps.check_function(buf, fn, lookup, mask, fam, a_, name)
+                        except Unsupported as e:
+                            okf = False
+                            buf.unk('I3', name, 'outside the domain: %s' % e, loc=fn.loc(fn.entry.term))
+                        res.append((okf, buf))
+                        if okf:
+                            break
+                    okf, buf = res[-1] if res[-1][0] else sorted(res, key=lambda r: r[1].rank())[0]
+                    buf.replay(rep)
+                    if okf:
+                        passed.add(name)
+                elif C03_steps.check_function(rep, fn, lookup, mask, fam, a, name):
                     passed.add(name)
             except Unsupported as e:
                 rep.unk('I3', name, 'outside the domain: %s' % e, loc=fn.loc(fn.entry.term))
